@@ -1,2 +1,24 @@
+use crate::vj;
+use libhaystack::units::get_unit;
+use libhaystack::val::*;
 use serde_json::{json, Value as J};
-pub fn run(api: &str, _case: &J) -> J { json!({"bad_api": api}) }
+
+pub fn run(api: &str, case: &J) -> J {
+    match api {
+        // a unit identifier through lookup and both codecs
+        "unit_survives" => {
+            let id = vj::uhs(&case["id"]);
+            let u = match get_unit(&id) { Some(u) => u, None => return json!({"ok": {"lookup": null}}) };
+            let n = Value::Number(Number { value: 1.5, unit: Some(u) });
+            let z = libhaystack::encoding::zinc::encode::to_zinc_string(&n).ok();
+            let zd = z.as_ref().and_then(|t| libhaystack::encoding::zinc::decode::from_str(t).ok());
+            let zid = format!("1.5{}", id);
+            let zd_id = libhaystack::encoding::zinc::decode::from_str(&zid).ok();
+            let j = serde_json::to_string(&n).ok();
+            let jd = j.as_ref().and_then(|t| serde_json::from_str::<Value>(t).ok());
+            json!({"ok": {"lookup": u.name(), "symbol": u.symbol(), "zinc": z, "zinc_same": zd.as_ref() == Some(&n), "zinc_by_id_same": zd_id.as_ref() == Some(&n),
+                          "json": j, "json_same": jd.as_ref() == Some(&n)}})
+        }
+        other => crate::apis12::run(other, case),
+    }
+}
